@@ -137,7 +137,7 @@ def run(tier):
         bounds = dict(size_max=3)
         mut_limit = 10
         if not os.environ.get("VERIF_ALLSEEDS"):
-            names = [n for i, n in enumerate(names) if i % 2 == vseed % 2]
+            pass  # quick also covers every seed (detection must not depend on the rotation)
     else:
         bounds = dict(size_max=4, idx_max=5, stmt_budget=2500)
         mut_limit = None
